@@ -9,8 +9,11 @@ TB = ('Trusted base: Lean 4.33 kernel; axioms propext, Classical.choice, Quot.so
       'code by the correspondence run (model and implementation on the same inputs, canonicalised outcomes compared); exact on ASCII; nesting <= 64.')
 
 CHECKS = {
- 'C01': dict(level='proof', technique='Lean 4 proof (LR engine safety on the regenerated tables) + model/implementation correspondence of outcome classes',
-   text='Proved in Lean for every token source and all semantic actions: the LR engine on the tables regenerated from the source never fails internally '
+ 'C01': dict(level='proof', technique='Lean 4 proof (C01_partial: exception discipline and termination of the whole model, all inputs and options; LR engine safety on the regenerated tables) + model/implementation correspondence of outcome classes',
+   text='C01_partial / C01_partial_single / C01_partial_split (Props/C01*.lean): for every input and all options the model of parse, parsesingle and split returns its '
+        'documented result shape or raises ParsingError, NotImplementedError, one of 7 listed (type, site) pairs above the tokenizer (3 are the recorded defects D24/D18/D35 with kernel-checked '
+        'witnesses), one of the 14 raise sites of the tokenizer, or the out-of-fuel marker of a loop covered by fuel only; every other AttributeError/TypeError/IndexError/AssertionError branch of the '
+        'semantic actions and the engine is proved unreachable, and the loops of _expandwordinternal and parse() are proved to terminate. Also proved in Lean for every token source and all semantic actions: the LR engine on the tables regenerated from the source never fails internally '
         '(run_sound/real_WF: no KeyError/IndexError, stack discipline) and is the only loop of the engine bounded by fuel; the remaining sources of foreign '
         'exceptions (tokenizer, expansion, actions) are modelled with Python\'s failure modes and the model agrees with the implementation on outcome class '
         '(result shape / ParsingError / NotImplementedError / foreign(type, site) / timeout) for all three entry points under the option grid on every '
@@ -44,11 +47,12 @@ CHECKS.update({
         'enumerated exhaustively, larger ones sampled; parse(rendered) is compared with the expected tree (kinds, nesting, operators, reserved words, word values, '
         'assignment classification, spans). The oracle checks itself on every case with the C03/C04/C05/C06/C12 predicates.',
    note=TB + ' Per-case evaluation against a Lean-defined oracle (translation-validation strength), not a theorem over all trees; LR soundness (C09_sound) is the proved part.'),
- 'C06': dict(level='proof', technique='Lean 4 definition of quote removal and of POSIX shlex evaluated on implementation outcomes; model correspondence',
-   text='Spec.quoteRemove (independent small-step definition keeping expansions verbatim) is compared with the value of every word/assignment node of every returned tree '
+ 'C06': dict(level='proof', technique='Lean 4 proof (C06_partial / C06_param: the expander equals Spec.quoteRemove on defect-feature-free token texts) + the same definition and POSIX shlex evaluated on implementation outcomes; model correspondence',
+   text='C06_plain/C06_total/C06_partial/C06_param (Props/C06*.lean): for every balanced token text free of the recorded defect features K1-K5, K8, K9 (K7x for words with parameters) the model of _expandword '
+        'returns exactly word(lexpos, endlexpos, quoteRemove(text)) with parameter nodes over quote-free text; each exclusion has a kernel-checked witness. Per input: Spec.quoteRemove (independent small-step definition keeping expansions verbatim) is compared with the value of every word/assignment node of every returned tree '
         '(all words up to a length bound over the quoting alphabet in nine word positions, plus generated scripts); split is compared with a Lean transcription of POSIX shlex '
         '(validated against Python shlex.split on every input) exhaustively on the plain/blank/quote/backslash alphabet. Deviations are classified by decidable features of the source (K1-K7).',
-   note=TB + ' No all-inputs theorem for the expander yet (C06_partial is future work); the K classes are the listed known findings.'),
+   note=TB + ' Words with command/process substitutions, backquotes and tildes are outside the theorem (decided per input); the K classes are the listed known findings.'),
  'C07': dict(level='proof', technique='Lean 4 relation evaluated on implementation outcomes; model correspondence',
    text='For command texts A accepted alone and 13 embedding contexts the substitution node opened at the known offset must hold parse(A) shifted (relation in Lean); '
         'expansions under single quotes or backslashes in six word shapes must yield no substitution/parameter/tilde node.',
@@ -64,19 +68,23 @@ CHECKS.update({
         'Lean engine (verdict, tokens fetched, full reduction trace) on all sequences up to a length bound over six sub-alphabets in both modes; the <= direction is evaluated '
         'against an independent Earley recogniser on the same sequences.',
    note=TB + ' The <= direction (every derivable sentence is accepted) is bounded enumeration, not a theorem; known findings D8, D9.'),
- 'C10': dict(level='proof', technique='Lean 4 relation with the pairing known by construction; model correspondence',
-   text='Inputs are built from their parts (1-3 operators, delimiter spellings, bodies, following text, enclosing construct), so operator position, body extent, tab stripping '
+ 'C10': dict(level='proof', technique='Lean 4 proof (gather_spec / makeheredoc_spec / readline_spec: the here-document reader equals a pure specification, FIFO pairing) + Lean relation with the pairing known by construction; model correspondence',
+   text='Props/C10*.lean: readline, makeheredoc and gatherheredocuments are proved EQUAL (as runs, for top-level and nested parsers) to pure specifications: the body is the lines up to and including the first line equal '
+        'to the delimiter (<<- strips leading tabs), span (start, cursor-1), the queue of pending redirects is served first-in-first-out with consecutive bodies and is empty afterwards; specHeredoc_lines/_slice/_cursor show the '
+        'specification is the intended one. Per input: inputs are built from their parts (1-3 operators, delimiter spellings, bodies, following text, enclosing construct), so operator position, body extent, tab stripping '
         'and the start of the following command are known; the Lean relation checks pairing in operator order, body span/value and the resume point on the implementation outcome.',
-   note=TB + ' No theorem for the here-document reader yet; known findings D11 (compound contexts, quoted delimiters).'),
+   note=TB + ' The theorems cover the reader given the queue; WHEN a redirect is queued relative to the look-ahead (D11: compound contexts) and quote removal of the delimiter (D11-quoted) are decided per input and are the known findings.'),
  'C11': dict(level='proof', technique='Lean 4 predicate on error triples; history independence theorems (QCongr); model correspondence of (message, source, position)',
    text='Eval.errOK (Lean) checks source = input, 0 <= position <= len, token text at position / EOF at len on every ParsingError of edits placed at top level, in '
         'substitutions, nested twice and in later lines; all calls run back to back in one process and the model (history-free, History.results_eq_solo) must agree on the triple.',
    note=TB + ' Known findings D15, D21 (nested / later-part parsers report their substring).'),
- 'C13': dict(level='proof', technique='Lean 4 proof: the outcome of a parser run depends only on the tape prefix it examined (Q.run_prefix); relation evaluated on outcomes',
-   text='Proved for every program in the query monad, hence for the whole parser model: a run that examines only tape cells < k and asks for no whole-input query gives the '
+ 'C13': dict(level='proof', technique='Lean 4 proof (C13_independence: parse(A ++ R) = parse(A) followed by the shifted parts of a fresh parse from the restart index, for every A whose runs are local; Q.run_prefix) + relation evaluated on outcomes',
+   text='C13_independence / C13_partial / C13_first_part (Props/C13*.lean): parse is characterised as the fuel-free iteration of parser runs on suffixes (parse_unfold, Loop.det/total); for every A whose runs read nothing beyond their own text '
+        '(parseLocal, decidable; implied by: no _getc returned None) and every R joined at a newline, parse(A ++ R) returns the parts of parse(A) followed by the parts of a fresh parse of the rest shifted to absolute offsets '
+        '(nextIndex_shift, shift_shift): only the restart index flows between top-level commands. Witnesses (kernel-checked) show locality is necessary: a missing here-document in non-strict mode and a trailing backslash. Proved for every program in the query monad, hence for the whole parser model: a run that examines only tape cells < k and asks for no whole-input query gives the '
         'same result on every tape agreeing on those cells (Q.run_prefix, runParser_prefix). parse(A+sep+B) = parse(A) ++ shift(parse(B)) is evaluated (Lean relation) on pairs and '
         'triples of accepted commands x separators x options.',
-   note=TB + ' That the first parser stops at the newline (maxCell <= len(A)+1) is a per-input fact, evaluated, not proved for all A.'),
+   note=TB + ' Locality of the runs on A and BlankSkip (one run commutes with translation past blank lines before B; false for the constant-span node of D19 with proceedonerror) are hypotheses of the theorem, decided per input.'),
  'C14': dict(level='proof', technique='Lean 4 relation (induced monotone span map) evaluated on outcomes; model correspondence',
    text='For every accepted input and layout-only edits at inter-token gaps located from the leaf spans (widening, tabs, continuation, comment at end of line, leading blank '
         'lines, trailing newlines) the second parse must equal the first with spans mapped by the insertion map (Spec.relayout).',
@@ -89,8 +97,9 @@ CHECKS.update({
  'C16': dict(level='proof', technique='Lean 4 relation (pruneLimit) evaluated on outcomes; model correspondence',
    text='parse(s, expansionlimit=k) must equal Spec.pruneLimit k (parse(s)) for k in 0..3 on inputs with substitutions nested up to depth 4 in every word position and on every line.',
    note=TB + ' The all-inputs theorem (expand_limit + naturality) is not proved yet.'),
- 'C17': dict(level='proof', technique='Lean 4 proof: an option that is never asked cannot matter (query congruence); relations evaluated on outcomes',
-   text='Proved for the whole parser model: if a run never asks optStrict (resp. optProceed) the outcome is the same for both values, and conversely a differing outcome implies the '
+ 'C17': dict(level='proof', technique='Lean 4 proof: parsesingle is the head of parse (parsesingle_eq_head, all inputs); an option that is never asked cannot matter (query congruence); relations evaluated on outcomes',
+   text='parsesingle_eq_head / parsesingle_exn_iff / parsesingle_of_parse_exn (Props/C13/Single.lean): for all inputs and options, whenever parse returns parts parsesingle returns their head (None for []), parsesingle raises exactly when the first parser run raises, and '
+        'when parse raises later parsesingle still returns the first part. Proved for the whole parser model: if a run never asks optStrict (resp. optProceed) the outcome is the same for both values, and conversely a differing outcome implies the '
         'query was made (parse_strict_irrelevant, parse_proceed_irrelevant, parsesingle_*). parsesingle = head of parse, convertpos = span-to-text map, strict/proceed change only '
         'here-document-at-EOF / NotImplementedError outcomes: Lean relations evaluated on every input x option pairs.',
    note=TB + ' The "as if replaced by a plain command" half of the proceedonerror clause is not checked; known findings D18, D19.'),
